@@ -389,6 +389,34 @@ def enclosing(n: ast.AST) -> ast.AST:
     return cur if cur is not None else n
 
 
+def check_coercion_identity(prog: Program, rep, rule: str) -> None:
+    """PreferredUnits.<slot>(q) for an existing quantity q: the analysed Unit.__call__ must hand back q itself with its
+    magnitude untouched (bit-for-bit independence of explicit inputs rests on this; a rebuilt quantity has been round-
+    tripped through the preferred unit)."""
+    from .. import algebra as A
+    from ..abseval import Ctx, Evaluator, Inst, Scalar, State, SymObj, Undecided, cond_leaves
+    ev = Evaluator(prog, hooks=C.pref_hooks(prog))
+    umod = prog.module(C.M_UNIT)
+    call = prog.func(C.M_UNIT, 'Unit.__call__')
+    st = State()
+    q = C.mk_quantity(ev, st, prog, 'Distance', 'raw', 'Meter')
+    try:
+        r = ev.call_func(call, [q], {}, st, Ctx(umod, None, None, 0), self_val=SymObj('PreferredUnits.distance', C.unit_class(prog)))
+    except Undecided as exc:
+        raise AnalysisError(f'Unit.__call__ on a quantity: {exc}') from exc
+    outs = [x for _p, x in cond_leaves(r)]
+    same = all(isinstance(x, Inst) and x.oid == q.oid for x in outs)
+    mag = st.heap[q.oid].get('_value')
+    kept = isinstance(mag, Scalar) and mag.rf.equals(A.sym('raw'))
+    if same and kept:
+        rep.ok(rule, call.where, 'PreferredUnits.<slot>(quantity) returns the very quantity, magnitude untouched')
+    else:
+        rep.fail(rule, umod.path, call.node.lineno, call.qualname, 'coercion-rebuilds',
+                 'coercing an existing quantity with a preferred unit does not return that very object with its magnitude '
+                 'untouched (it is rebuilt through the preferred unit): results for explicit inputs then depend on the '
+                 'preferred-unit setting in the last bits')
+
+
 def run(prog: Program, rep, thorough: bool) -> None:
     rep.rule('C07.R1', 'no truthiness test on a float-or-quantity parameter', 12)
     rep.rule('C07.R2', 'slot of the right dimension and name at every coercion and in every preset', 30 + 6)
@@ -403,6 +431,7 @@ def run(prog: Program, rep, thorough: bool) -> None:
     check_truthiness(prog, rep, 'C07.R1')
     check_slots(prog, rep, 'C07.R2')
     check_no_leak(prog, rep, 'C07.R3')
+    check_coercion_identity(prog, rep, 'C07.R3')
 
 
 CON = 'py_ballisticcalc/conditions.py'
